@@ -616,10 +616,33 @@ class World:
             if k is None or not self.ref[ib]['keys'][k]['certs']:
                 return False, None
             other = self.key_of(op[1], 1 - op[2])
-            cands = list(self.ref[ib]['keys'][other]['certs']) if other is not None else []
+            cands = []
+            if other is not None:
+                oc = self.ref[ib]['keys'][other]
+                cands = [c for c in oc['certs'] if c != oc['default']] + [c for c in oc['certs'] if c == oc['default']]
             cands += [c for c in self.deleted_certs.get(k, []) if c not in self.ref[ib]['keys'][k]['certs']]
             cands.append(nb(enc.Name.to_str(enc.Name.from_bytes(k)) + '/nobody/v=1'))
             return True, lambda: self.kc[ib][k].set_default_cert(enc.Name.from_bytes(cands[0]))
+        if kind in ('delcert-foreign', 'defkey-foreign', 'delkey-foreign'):
+            # a view is scoped to its owner: asking the key / identity object of one owner to delete or to prefer an entry that belongs to
+            # another owner changes nothing (refusing with KeyError is as good)
+            ia, ib2 = nb(IDN['a']), nb(IDN['b'])
+            if ia not in self.ref or ib2 not in self.ref:
+                return False, None
+            if kind == 'delcert-foreign':
+                ka, kb = self.key_of('a', 0), self.key_of('b', 0)
+                if ka is None or kb is None or not self.ref[ib2]['keys'][kb]['certs']:
+                    return False, None
+                c = self.ref[ib2]['keys'][kb]['certs'][0]
+                return True, lambda: self.kc[ia][ka].del_cert(enc.Name.from_bytes(c))
+            order = self.ref[ib2]['order']
+            if not order or not self.ref[ia]['keys']:
+                return False, None
+            # (for the default: a key of the other identity that is not its default, if it has one)
+            kb = next((k for k in order if k != self.ref[ib2]['default']), order[0])
+            if kind == 'defkey-foreign':
+                return True, lambda: self.kc[ia].set_default_key(enc.Name.from_bytes(kb))
+            return True, lambda: self.kc[ia].del_key(enc.Name.from_bytes(kb))
         if kind == 'import-dup':
             # a certificate that is already filed under its own key is imported once more under another key of the identity: whatever
             # the store makes of that, the key that owns the certificate keeps it
@@ -728,7 +751,7 @@ class World:
             try:
                 call()
             except Exception:  # noqa
-                if op[0] not in ('defkey-gone', 'defcert-gone', 'import-dup') and not dup_key:
+                if op[0] not in ('defkey-gone', 'defcert-gone', 'import-dup', 'delcert-foreign', 'defkey-foreign', 'delkey-foreign') and not dup_key:
                     raise
                 # refusing is fine; the state is compared below all the same
             if dup_key:
@@ -823,7 +846,7 @@ def alphabet(tier):
            ('delcert', 'a', 0, 0), ('delcert', 'a', 0, 1), ('delcert2', 'a', 0, 0), ('delcert', 'b', 0, 0),
            ('delkey', 'a', 0), ('delkey', 'a', 1), ('delkey2', 'a', 0), ('delkey', 'b', 0),
            ('delid', 'a'), ('delid', 'b'), ('signL', 'a', 0), ('signL', 'a', 1), ('signL', 'b', 0), ('reopen',),
-           ('defkey-gone', 'a'), ('import-dup', 'a'), ('newkey-id', 'a'), ('defcert-gone', 'a', 0), ('defcert-gone', 'a', 1)]
+           ('defkey-gone', 'a'), ('import-dup', 'a'), ('newkey-id', 'a'), ('defcert-gone', 'a', 0), ('defcert-gone', 'a', 1), ('delcert-foreign',), ('defkey-foreign',), ('delkey-foreign',)]
     return ops
 
 
